@@ -79,4 +79,17 @@ def _guarded():
 
 
 if __name__ == "__main__":
-    sys.exit(_guarded())
+    code = 2
+    try:
+        code = _guarded()
+    except SystemExit as e:
+        code = e.code if isinstance(e.code, int) else 1
+    finally:
+        try:  # nothing of this run may outlive it (an orphan holding our stdout would block whoever captures it)
+            from vlib import procs
+
+            sys.stdout.flush()
+            procs.kill_leftovers()
+        except Exception:  # noqa: BLE001
+            pass
+    sys.exit(code)
